@@ -263,8 +263,10 @@ func (g *Gateway) queryHandler(w http.ResponseWriter, r *http.Request) {
 				}, nil
 			}
 
-			introspectionRes := g.parseIntrospectionQuery(plan, request)
-			if introspectionRes != nil {
+			// root fields the gateway answers itself (__schema, __type, __typename); what else
+			// was selected next to them still goes to the services
+			introspectionRes, plan := g.parseIntrospectionQuery(plan, request)
+			if introspectionRes != nil && len(plan.RootSteps) == 0 {
 				introspectionRes.index = index
 				return introspectionRes, nil
 			}
@@ -280,6 +282,15 @@ func (g *Gateway) queryHandler(w http.ResponseWriter, r *http.Request) {
 			})
 
 			plan.ScrubFields.Clean(result)
+
+			if introspectionRes != nil && (result != nil || err == nil) {
+				if result == nil {
+					result = make(map[string]interface{})
+				}
+				for k, v := range introspectionRes.Data {
+					result[k] = v
+				}
+			}
 
 			return &Result{
 				Errors: gqlerrors.FormatError(err),
@@ -299,24 +310,39 @@ func (g *Gateway) queryHandler(w http.ResponseWriter, r *http.Request) {
 
 }
 
-func (g *Gateway) parseIntrospectionQuery(plan *planner.QueryPlan, request *requests.Request) *Result {
+// parseIntrospectionQuery resolves the root steps which belong to the gateway itself and returns their
+// answer (nil if there is none) together with the plan for the remaining steps; the given plan, which may
+// be shared through the planner's cache, is left as it is
+func (g *Gateway) parseIntrospectionQuery(plan *planner.QueryPlan, request *requests.Request) (*Result, *planner.QueryPlan) {
+	var res *Result
+	var otherSteps []*planner.QueryPlanStep
 	for _, rs := range plan.RootSteps {
-		if rs.URL == common.InternalServiceName {
-			ir := &introspection.IntrospectionResolver{
-				Variables: request.Variables,
-			}
+		if rs.URL != common.InternalServiceName {
+			otherSteps = append(otherSteps, rs)
+			continue
+		}
 
-			introspectionFields := ir.ResolveIntrospectionFields(rs.SelectionSet, g.schema)
-			if introspectionFields != nil {
-				return &Result{
-					Data:   introspectionFields,
-					Errors: nil,
-				}
-			}
+		ir := &introspection.IntrospectionResolver{
+			Variables: request.Variables,
+		}
+
+		fields := ir.ResolveRootFields(rs.ParentType, rs.SelectionSet, g.schema)
+		if res == nil {
+			res = &Result{Data: make(map[string]interface{})}
+		}
+		for k, v := range fields {
+			res.Data[k] = v
 		}
 	}
 
-	return nil
+	if res == nil {
+		return nil, plan
+	}
+
+	rest := *plan
+	rest.RootSteps = otherSteps
+
+	return res, &rest
 }
 
 func (g *Gateway) getQueryers(planningCtx *planner.PlanningContext, planSteps []*planner.QueryPlanStep) map[string]queryer.Queryer {
